@@ -7,4 +7,8 @@ GenFpr == (phase = 1) =>
   \A kv \in KeyVersions :
      PrintT(<<"CASE", ToJson([kind |-> "fingerprint", keyver |-> kv, hash |-> FprHash(kv), preimage |-> FprPreimage(kv), fprlen |-> FprLen(kv),
                               keyid |-> KeyIdRule(kv), sites |-> EmbedSites(kv)])>>)
+GenMatch == (phase = 1) =>
+  \A hi \in BOOLEAN, ie \in BOOLEAN, hf \in BOOLEAN, fe \in BOOLEAN :
+     ((~hi => ~ie) /\ (~hf => ~fe)) =>
+     PrintT(<<"CASE", ToJson([kind |-> "match", has_ids |-> hi, id_eq |-> ie, has_fprs |-> hf, fpr_eq |-> fe, matches |-> IssuerMatches(hi, ie, hf, fe)])>>)
 =============================================================================
